@@ -205,6 +205,8 @@ class Lifter:
                 return Ent('VIA', n.key(), 0, sid)
             if sid[0] == 'fld' and sid[2] == 'first' and sid[1][0] == 'res':
                 return Ent('NEW', sid[1][1], 0, sid)
+            if sid[0] == 'res':
+                return Ent('NEW', sid[1], 0, sid)       # emplace_hint / insert(hint, ..) return the iterator itself
             if sid[0] == 'ld' and sid[2][0] == 'fld' and sid[2][2] == 'first' and sid[2][1][0] == 'res':
                 return Ent('NEW', sid[2][1][1], 0, sid)
         v = sid
@@ -345,6 +347,12 @@ class Lifter:
         t = term
         if isinstance(t, tuple) and t[0] == 'pred':
             return ('INS_OK' if t[1] == 'insert_allowed' else 'UPD_OK', (t[2],), True)
+        if isinstance(t, tuple) and t[0] == 'cmp' and t[1] in ('==', '!='):
+            # a == allow::insert (switch over the mode): decides both permission predicates (R-ALLOW-ENC checks the encoding)
+            for x, y in ((t[2], t[3]), (t[3], t[2])):
+                if isinstance(y, tuple) and y and y[0] == 'enum' and 'allow' in str(y[1]) and y[2] in ALLOW_TABLE \
+                        and isinstance(x, tuple) and x and x[0] == 'p':
+                    return ('ALLOW_IS', (x, y[2]), t[1] == '==')
         if isinstance(t, tuple) and t[0] == 'hasval':
             v = t[1]
             if is_ld(v) and v[2][0] == 'fld' and v[2][2] in r.backptrs:
@@ -626,6 +634,9 @@ def unld_node(loc):
 
 # ---------------------------------------------------------------------------------------------- effects
 
+ALLOW_TABLE = {'insert': (True, False), 'update': (False, True), 'insert_or_update': (True, True)}   # (INS_OK, UPD_OK)
+
+
 class Effect:
     def __init__(self, kind, site, **kw):
         self.kind = kind
@@ -753,6 +764,11 @@ class Segment:
                 truth = (e[2] == pol)
                 self.conds.append((kind, args, truth, e[3], e[1], e[2]))
                 self.order.append(('cond', len(self.conds) - 1))
+                if kind == 'ALLOW_IS' and truth:
+                    ins, upd = ALLOW_TABLE[args[1]]
+                    for k2, v2 in (('INS_OK', ins), ('UPD_OK', upd)):
+                        self.conds.append((k2, (args[0],), v2, e[3], ('pred', 'insert_allowed' if k2 == 'INS_OK' else 'update_allowed', args[0]), v2))
+                        self.order.append(('cond', len(self.conds) - 1))
             elif k == 'loop':
                 lp = e[1]
                 segs = []
